@@ -248,3 +248,48 @@ def _r5(ctx: Context) -> None:
         rep.ob("C19.R5", f"{tree}|{f.short}|{kind}:{norm(n)[:50]}", bracketed, where(f, n),
                "authority is formatted with IPv6 bracketing" if bracketed else
                f"`{src[:70]}` formats an unbracketed host (URL parsing stores `.hostname`, which strips the brackets): for an IPv6 literal the result is e.g. `::1:8080`, not a valid authority")
+
+
+_core_run = run
+
+
+def _value_objects_immutable(ctx: Context) -> None:
+    """Census: URL and Origin are value objects - no attribute of one is stored outside its own constructor.  `enforce_url`
+    hands the caller's own URL instance through unchanged, so a store into `request.url.<field>` would rewrite the caller's
+    object (its next use - comparison, serialisation, another request - no longer agrees with a fresh parse of the same text)."""
+    rep = ctx.rep
+    funcs = []
+    for tree in ("async", "sync"):
+        funcs += [(tree, f) for f in ctx.names(tree).functions()]
+    for mn in ("httpcore._models", "httpcore._trace", "httpcore._api", "httpcore._utils"):
+        try:
+            funcs += [("shared", f) for f in ctx.prog.module(mn).all_functions()]
+        except Exception:  # noqa: BLE001
+            continue
+    sites = 0
+    scanned = 0
+    for tree, f in funcs:
+        for n in own_nodes(f.node):
+            if not (isinstance(n, ast.Attribute) and isinstance(n.ctx, (ast.Store, ast.Del))):
+                continue
+            scanned += 1
+            ty = ctx.types.expr_type(n.value, f)
+            cn = ty[1].name if ty and ty[0] == "cls" else None
+            by_name = norm(n.value).endswith((".url", "_url", ".origin", "_origin")) or norm(n.value) in ("url", "origin")
+            if cn not in ("URL", "Origin") and not (cn is None and by_name and n.attr in ("scheme", "host", "port", "target")):
+                continue
+            if f.short in ("URL.__init__", "Origin.__init__") and norm(n.value) == "self":
+                continue
+            sites += 1
+            rep.ob("C19.R8", fkey(tree, f, f"mutates-url:{norm(n)[:50]}"), False, where(f, n),
+                   f"`{ast.unparse(n)}` is stored outside the {cn or 'URL/Origin'} constructor: the object may be the caller's own (enforce_url passes URL instances through), "
+                   "so its later uses no longer match a fresh parse of the same text")
+    if not sites:
+        rep.ob("C19.R8", "both|*|url-origin-immutable", True, "httpcore/", f"no attribute of a URL / Origin is stored outside its constructor ({scanned} attribute stores scanned)")
+    rep.floor("C19.R8", "attribute stores scanned", scanned, 50)
+
+
+def run(ctx: Context) -> None:  # noqa: F811
+    _core_run(ctx)
+    ctx.rep.rule("C19.R8", "URL and Origin are immutable value objects: no attribute store outside their constructors (the caller's URL instance is passed through as is)")
+    _value_objects_immutable(ctx)
